@@ -370,7 +370,8 @@ def pushRejected (cfg : ScanCfg) (s : LScanner) (pos : Nat) (tok : Tok) : Except
     | .ok s1 =>
       let (r2, p2) := s1.parser.push cfg.lang tok.lower
       let s2 := { s1 with parser := p2 }
-      let s3 := if r2.isNone then s2.advanced pos else s2.outside cfg tok
+      let s3 := if r2.isNone then s2.advanced pos
+                else if r2 == some .incomplete then s2 else s2.outside cfg tok
       .ok { s3 with previous := some tok }
   else .ok { (s.outside cfg tok) with previous := some tok }
 
@@ -538,7 +539,10 @@ theorem LScanner.pushRejected_sim (cfg : ScanCfg) (s : LScanner) (pos : Nat) (to
         ({ s1 with parser := (s1.parser.push cfg.lang tok.lower).2 } : LScanner) tok
       cases hr : (s1.parser.push cfg.lang tok.lower).1.isNone with
       | true => rfl
-      | false => exact congrArg (fun z : Scanner => Except.ok { z with previous := some tok }) ho
+      | false =>
+        cases hi : ((s1.parser.push cfg.lang tok.lower).1 == some Err.incomplete) with
+        | true => rfl
+        | false => exact congrArg (fun z : Scanner => Except.ok { z with previous := some tok }) ho
   · rw [if_neg hn, if_neg hn]
     dsimp only [LScanner.mapS]
     rw [LScanner.outside_sim, LScanner.setPrev_sim]
